@@ -376,7 +376,8 @@ fn history(cx: &mut Ctx, cell: &CellDef, ops: &[Op], force_coq: bool) {
             CLONE => {
                 match guarded(|| t.reclone()) {
                     Err(p) => { fail!(None, "step {}: clone panicked: {}", step, p); coq_ok = false; break; }
-                    Ok(_) => { obs.push("[]".into()); unavailable.push(step); }
+                    // the node-vector model has clone (p_clone); the other models treat it as a no-op
+                    Ok(done) => { obs.push("[]".into()); if !(done && (kind == Kind::Patricia || kind == Kind::Sparse)) { unavailable.push(step); } }
                 }
             }
             _ => { obs.push("[]".into()); }
